@@ -6,6 +6,7 @@ from ..core.program import norm, own_nodes, own_statements
 from ..core.world import world
 from ..rules import generic as G
 from ..rules import ownership as OW
+from ..rules import extra as X
 
 EXPLANATION = (
     "Static analysis of io/exportmusicxml.py and io/importmusicxml.py. Decides: (F5a) every element tag and attribute "
@@ -237,6 +238,7 @@ def run(ctx):
     rule_escape(ctx)
     rule_loopvars(ctx)
     rule_groups(ctx)
+    X.rule_overlap_predicate(ctx, f"{EX}:find_free_voice")
     OW.rule_F1(ctx, [(f"{EX}:save_musicxml", ["score_data"])], "MusicXML exporter")
     fs = [f for f in ctx.prog.functions.values() if f.module.name in (EX, IM) and "#" not in f.qname]
     G.rule_F7a(ctx, fs)
